@@ -569,6 +569,17 @@ class LedgerDevice(AdminSimDevice):
             return 0x9000, H + a.flip(self.signer_hash, "s_hash")
         return ERR_ATT_PROT_INVALID, b""
 
+    def set_state(self, st):
+        """The blockchain state the device holds: an earlier one (first run of a history) or, with
+        None, the one it was created with (it has moved on)."""
+        if st is None:
+            self.best_block, self.last_tx, self.timestamp = self._final_state
+        else:
+            if not hasattr(self, "_final_state"):
+                self._final_state = (self.best_block, self.last_tx, self.timestamp)
+            self.best_block, self.last_tx = bytes.fromhex(st["best"]), bytes.fromhex(st["ltx"])
+            self.timestamp = st["ts"]
+
     def replug(self):
         """The operator disconnects and re-connects the device: fresh boot, locked, bootloader."""
         self.mode = MODE_BOOT
@@ -709,6 +720,12 @@ class SgxDevice(AdminSimDevice):
 
     def keys65(self):
         return {p: self.keys[path_bytes(p)] for p in SORTED_PATHS}
+
+    set_state = LedgerDevice.set_state
+
+    def relock(self):
+        self.unlocked = False
+        self.mode = MODE_BOOT
 
     def custom_message(self, ud):
         return b"POWHSM:" + self.s_ver.encode() + b"::" + b"sgx" + ud + pubkeys_hash(self.keys65()) + \
@@ -1037,6 +1054,8 @@ def _obs(case, truth):
             "node_n": "0x%x" % case.get("node_number", 0), "node_url": case.get("node_url", ""),
             "rootvia": case.get("rootvia", "file"), "root_url": case.get("root_url", ""),
             "http": [], "ud_sent": "", "att_file": "no", "contacted": "no", "g_err": "none", "v_err": "none",
+            "hist": case.get("hist", "single"), "prev_ok": "na", "dev_prev": truth,
+            "earlier_before": [], "earlier_after": [], "verify_prev": "na", "printed_prev": empty_printed(),
             "sigsite": (case.get("sigshape") or {}).get("site", "none"),
             "sigclass": (case.get("sigshape") or {}).get("cls", "any"),
             "plat": case["plat"], "framing": case["framing"], "alt": case["alt"]["site"],
@@ -1069,43 +1088,92 @@ def _run_ledger(case, scratch, tag):
     return o, diag
 
 
+def kept_rows(paths):
+    """Earlier files as rows (flat content + digest of the raw bytes): what `EarlierKept` compares."""
+    out = []
+    for p in paths:
+        try:
+            with open(p, "rb") as f:
+                raw = f.read()
+            out.append([["sha256", hashlib.sha256(raw).hexdigest()]] + flat_certificate(p))
+        except OSError as e:
+            out.append([["missing", type(e).__name__]])
+    return out
+
+
+def _first_run_setup(case, dev):
+    """Histories: the first run is a genuine one (the alteration, if any, belongs to the second run);
+    returns the alteration to arm later."""
+    armed = dev.alt
+    if case.get("hist", "single") != "single":
+        dev.alt = Alteration()
+    return armed
+
+
 def _run_ledger_commands(case, scratch, tag, dev, world, ud, ud_text, o, diag):
     from admin.onboard import do_onboard
     from admin.ledger_attestation import do_attestation
     from admin.verify_ledger_attestation import do_verify_attestation
+    hist = case.get("hist", "single")
     f0 = os.path.join(scratch, "%s_att0.json" % tag)
     f1 = os.path.join(scratch, "%s_att1.json" % tag)
+    f2 = os.path.join(scratch, "%s_att2.json" % tag)
     f0b = os.path.join(scratch, "%s_att0b.json" % tag)
     f1b = os.path.join(scratch, "%s_att1b.json" % tag)
     pk = os.path.join(scratch, "%s_pubkeys.json" % tag)
-    for p in (f0, f1, f0b, f1b, pk):
+    for p in (f0, f1, f2, f0b, f1b, pk):
         if os.path.exists(p):
             os.unlink(p)
+    armed = _first_run_setup(case, dev)
+
+    def attest(in_path, out_path, ud_source):
+        dev.replug()
+        dev.ud_seen = []
+        mark = len(world.log)
+        r, exc, _out = _call(world, do_attestation,
+                             _options(pin=case["pin"], output_file_path=out_path,
+                                      attestation_certificate_file_path=in_path,
+                                      attestation_ud_source=ud_source, verbose=case.get("verbose", False)))
+        return r, exc, ("yes" if len(world.log) > mark else "no")
+
     # 1. onboarding + endorsement setup
     r, exc, out = _call(world, do_onboard,
                         _options(pin=case["pin"], output_file_path=f0, verbose=case.get("verbose", False)),
                         lines=[(case.get("yes", "yes"), "yes"), ("", "other")])
     o["g_onboard"], diag["exc"]["onboard"] = r, exc
+    out_path = f1
     if r == "ok":
         o["file0"] = flat_certificate(f0)
         rr, e2 = _reload(f0, f0b)
         o["reload0"] = flat_certificate(f0b) if rr == "ok" else [["reload-failed", e2 or ""]]
         # 2. UI + signer attestation, after the operator re-plugged the device
-        dev.replug()
-        mark = len(world.log)
-        r, exc, out = _call(world, do_attestation,
-                            _options(pin=case["pin"], output_file_path=f1,
-                                     attestation_certificate_file_path=f0,
-                                     attestation_ud_source=ud_text, verbose=case.get("verbose", False)))
-        o["g_attest"], diag["exc"]["attest"] = r, exc
-        o["g_err"] = errkind(exc)
-        o["att_file"] = "yes" if os.path.exists(f1) else "no"
-        o["contacted"] = "yes" if len(world.log) > mark else "no"
+        if hist != "single":
+            # first run of a history: genuine, with the device's earlier state and another UD value
+            ud1 = bytes.fromhex(case["ud1"])
+            dev.set_state(case["state1"])
+            o["dev_prev"] = dev.truth(ud1)
+            r1, exc1, _c = attest(f0, f1, ud1.hex())
+            o["prev_ok"], diag["exc"]["attest1"] = r1, exc1
+            dev.set_state(None)                      # the device moves on
+            dev.alt = armed
+            in_path = f1 if hist in ("reattest", "inplace") else f0
+            out_path = f1 if hist in ("inplace", "sameout") else f2
+            earlier = [f0] + ([f1] if out_path != f1 else [])
+            o["earlier_before"] = kept_rows(earlier)
+        else:
+            in_path = f0
+        if hist == "single" or o["prev_ok"] == "ok":
+            r, exc, o["contacted"] = attest(in_path, out_path, ud_text)
+            o["g_attest"], diag["exc"]["attest"] = r, exc
+            o["g_err"] = errkind(exc)
+            o["att_file"] = "yes" if os.path.exists(out_path) else "no"
+        if hist != "single":
+            o["earlier_after"] = kept_rows(earlier)
     if o["g_onboard"] == "ok" and o["g_attest"] == "ok":
         o["gather"] = "ok"
-        o["file"] = flat_certificate(f1)
-        diag["faithful"] = file_faithful(f1, _ledger_expected(dev, ud)) if case["alt"]["site"] == "none" else []
-        rr, e2 = _reload(f1, f1b)
+        o["file"] = flat_certificate(out_path)
+        diag["faithful"] = file_faithful(out_path, _ledger_expected(dev, ud)) if case["alt"]["site"] == "none" else []
+        rr, e2 = _reload(out_path, f1b)
         o["reload_ok"] = rr
         o["reload"] = flat_certificate(f1b) if rr == "ok" else [["reload-failed", e2 or ""]]
         # 3. verification
@@ -1117,7 +1185,7 @@ def _run_ledger_commands(case, scratch, tag, dev, world, ud, ud_text, o, diag):
         root_hex = root.hex()
         o["verify"], diag["exc"]["verify"], out = _call(
             world, do_verify_attestation,
-            _options(attestation_certificate_file_path=f1, pubkeys_file_path=pk, root_authority=root_hex))
+            _options(attestation_certificate_file_path=out_path, pubkeys_file_path=pk, root_authority=root_hex))
         o["v_err"] = errkind(diag["exc"]["verify"])
         diag["stdout"]["verify"] = out
         if o["verify"] == "ok":
@@ -1129,6 +1197,15 @@ def _run_ledger_commands(case, scratch, tag, dev, world, ud, ud_text, o, diag):
                          root_authority=root_hex))
             if o["verify2"] == "ok":
                 o["printed2"] = parse_printed(out2)
+        if hist in ("reattest", "reuse0"):
+            # the first run's file, once more, after the second run
+            o["verify_prev"], diag["exc"]["verify_prev"], outp = _call(
+                world, do_verify_attestation,
+                _options(attestation_certificate_file_path=f1, pubkeys_file_path=pk, root_authority=root_hex))
+            if o["verify_prev"] == "ok":
+                o["printed_prev"] = parse_printed(outp)
+        if hist != "single":
+            o["earlier_after"] = kept_rows(earlier)
 
 
 def _check_shapes(case, measured):
@@ -1195,29 +1272,53 @@ GARBAGE = (b"", b"\xff\xfe\x00garbage", b"<html><body>502 Bad Gateway</body></ht
 def _run_sgx_commands(case, scratch, tag, dev, world, ud, ud_text, o, diag, http):
     from admin.sgx_attestation import do_attestation
     from admin.verify_sgx_attestation import do_verify_attestation
+    hist = case.get("hist", "single")
     f1 = os.path.join(scratch, "%s_sgx1.json" % tag)
+    f2 = os.path.join(scratch, "%s_sgx2.json" % tag)
     f1b = os.path.join(scratch, "%s_sgx1b.json" % tag)
     pk = os.path.join(scratch, "%s_pubkeys.json" % tag)
     rootp = os.path.join(scratch, "%s_root.pem" % tag)
-    for p in (f1, f1b, pk, rootp):
+    for p in (f1, f2, f1b, pk, rootp):
         if os.path.exists(p):
             os.unlink(p)
-    mark = len(world.log)
-    r, exc, out = _call(world, do_attestation,
-                        _options(pin=case["pin"], output_file_path=f1, attestation_ud_source=ud_text,
-                                 no_unlock=bool(case.get("no_unlock")), any_pin=True,
-                                 verbose=case.get("verbose", False)))
-    o["g_attest"], diag["exc"]["attest"] = r, exc
-    o["g_err"] = errkind(exc)
-    o["att_file"] = "yes" if os.path.exists(f1) else "no"
-    o["contacted"] = "yes" if len(world.log) > mark else "no"
+    armed = _first_run_setup(case, dev)
+
+    def attest(out_path, ud_source):
+        dev.ud_seen = []
+        mark = len(world.log)
+        r, exc, _out = _call(world, do_attestation,
+                             _options(pin=case["pin"], output_file_path=out_path, attestation_ud_source=ud_source,
+                                      no_unlock=dev.unlocked, any_pin=True, verbose=case.get("verbose", False)))
+        return r, exc, ("yes" if len(world.log) > mark else "no")
+
+    out_path, earlier, r = f1, [], "fail"
+    if hist != "single":
+        ud1 = bytes.fromhex(case["ud1"])
+        dev.set_state(case["state1"])
+        o["dev_prev"] = dev.truth(ud1)
+        r1, exc1, _c = attest(f1, ud1.hex())
+        o["prev_ok"], diag["exc"]["attest1"] = r1, exc1
+        dev.set_state(None)
+        dev.alt = armed
+        if case.get("relock"):                  # the enclave was restarted in between: locked again
+            dev.relock()
+        out_path = f1 if hist == "sameout" else f2
+        earlier = [f1] if out_path != f1 else []
+        o["earlier_before"] = kept_rows(earlier)
+    if hist == "single" or o["prev_ok"] == "ok":
+        r, exc, o["contacted"] = attest(out_path, ud_text)
+        o["g_attest"], diag["exc"]["attest"] = r, exc
+        o["g_err"] = errkind(exc)
+        o["att_file"] = "yes" if os.path.exists(out_path) else "no"
+    if hist != "single":
+        o["earlier_after"] = kept_rows(earlier)
     m = dev.mat
     if r == "ok":
         o["gather"] = "ok"
-        o["file"] = flat_certificate(f1)
+        o["file"] = flat_certificate(out_path)
         if case["alt"]["site"] == "none":
-            diag["faithful"] = file_faithful(f1, _sgx_expected(m))
-        rr, e2 = _reload(f1, f1b)
+            diag["faithful"] = file_faithful(out_path, _sgx_expected(m))
+        rr, e2 = _reload(out_path, f1b)
         o["reload_ok"] = rr
         o["reload"] = flat_certificate(f1b) if rr == "ok" else [["reload-failed", e2 or ""]]
         write_pubkeys(pk, dev, random.Random("pk:%d" % case["devseed"]))
@@ -1246,7 +1347,7 @@ def _run_sgx_commands(case, scratch, tag, dev, world, ud, ud_text, o, diag, http
                 f.write(served[1])
         o["verify"], diag["exc"]["verify"], out = _call(
             world, do_verify_attestation,
-            _options(attestation_certificate_file_path=f1, pubkeys_file_path=pk, root_authority=rootp))
+            _options(attestation_certificate_file_path=out_path, pubkeys_file_path=pk, root_authority=rootp))
         o["v_err"] = errkind(diag["exc"]["verify"])
         diag["stdout"]["verify"] = out
         if o["verify"] == "ok":
@@ -1258,6 +1359,14 @@ def _run_sgx_commands(case, scratch, tag, dev, world, ud, ud_text, o, diag, http
                          root_authority=rootp))
             if o["verify2"] == "ok":
                 o["printed2"] = parse_printed(out2)
+        if hist == "two":
+            o["verify_prev"], diag["exc"]["verify_prev"], outp = _call(
+                world, do_verify_attestation,
+                _options(attestation_certificate_file_path=f1, pubkeys_file_path=pk, root_authority=rootp))
+            if o["verify_prev"] == "ok":
+                o["printed_prev"] = parse_printed(outp)
+        if hist != "single":
+            o["earlier_after"] = kept_rows(earlier)
 
 
 def _sgx_expected(m):
@@ -1317,6 +1426,11 @@ def concretise(b, rng, profile=None, grind=False):
         case.update({"rootvia": "url", "root_url": rng.choice(ROOT_URLS),
                      "root_status": rng.choice((404, 403, 500, 503, 301, 204, 201))})
     case["model"]["net"] = net
+    if b.get("hist", "single") != "single":
+        p1 = rng.choice(PROFILES)
+        case.update({"hist": b["hist"], "ud1": content(rng, 32, p1).hex(), "relock": rng.random() < 0.5,
+                     "state1": {"best": content(rng, 32, p1).hex(), "ltx": content(rng, 8, p1).hex(),
+                                "ts": rng.choice((0, 1, rng.getrandbits(40)))}})
     sh = b.get("shape")
     if sh and sh.get("site", "none") != "none":
         case["sigshape"] = {"site": sh["site"], "cls": sh["cls"]}
@@ -1380,6 +1494,26 @@ def content_cases(rng):
     return out
 
 
+def history_cases(rng):
+    """Genuine two-run histories of every kind on every platform / framing, with boundary-looking
+    contents in both runs (deterministic in shape)."""
+    out = []
+    for plat, framing, hists in (("ledger", "current", ("reattest", "inplace", "sameout", "reuse0")),
+                                 ("ledger", "legacy", ("reattest", "inplace", "sameout", "reuse0")),
+                                 ("sgx", "current", ("sameout", "two"))):
+        cfg = {"uip": 2, "sp": 2, "ep": 0, "qeauth": 0, "npem": 0} if plat == "ledger" else \
+              {"uip": 0, "sp": 2, "ep": 99, "qeauth": 32, "npem": 3}
+        if framing == "legacy":
+            cfg["sp"] = 1
+        for h in hists:
+            for prof in ("random", "digits", "header"):
+                b = {"plat": plat, "framing": framing, "cfg": cfg, "alt": {"site": "none", "idx": 0}, "hist": h}
+                c = concretise(b, rng, profile=prof)
+                c["boundary"] = True
+                out.append(c)
+    return out
+
+
 def class_key(b):
     return (b["plat"], b["framing"], b["alt"]["site"], b["alt"]["idx"])
 
@@ -1404,6 +1538,8 @@ def signature(clause, case):
         s += " ud=node:%s%s" % (case["node"], "@%d" % case["node_at"] if case.get("node_at") else "")
     if case.get("rootvia") == "url":
         s += " root=url"
+    if case.get("hist", "single") != "single":
+        s += " hist=%s" % case["hist"]
     if case.get("sigshape") and a["site"] == "none":
         s += " sig=%s:%s" % (case["sigshape"]["site"], case["sigshape"]["cls"])
     if clause == "GenuineVerifies" and case.get("content", "random") != "random" and "sig=" not in s:
